@@ -61,6 +61,7 @@ type Work struct {
 	Implicit   int    `json:"implicit,omitempty"`    // >0: a last hop written as the implicit relay `dst <- src` (one item of src is forwarded); 2: dst is a chan interface
 	StructChan bool   `json:"struct_chan,omitempty"` // the stage channels are the channel fields of struct values made one after the other from one struct type (all unbuffered)
 	LateBind   bool   `json:"late_bind,omitempty"`   // a last forwarding goroutine is started from a function scope that is still empty; the channel it writes to is bound there afterwards
+	DispForm   int    `json:"disp_form,omitempty"`   // how a dispatching for-in starts its goroutine per item: 0 `go handle(dv)`; 1 a function literal inside an if block, capturing a variable of that block; 2 the same inside an inner loop; 3 a closure called in place
 	BadAt      int    `json:"bad_at,omitempty"`      // ConsForm 4 (checked consumer): the stage function fails inside Go for the BadAt-th item it is handed
 	Shadow     bool   `json:"shadow,omitempty"`      // outer variables named like the for-in loop variables exist (a for-in variable is a fresh binding per loop)
 }
@@ -132,6 +133,7 @@ func (Prop) Gen(seed int64, tier string) *harness.Case {
 	}
 	w.Relay = w.Workers <= 1 && r.Intn(5) == 0
 	w.Dispatch = w.Workers <= 1 && !w.Relay && r.Intn(5) == 0
+	w.DispForm = r.Intn(4)
 	if r.Intn(5) == 0 {
 		w.Implicit = 1 + r.Intn(2)
 	}
@@ -198,6 +200,10 @@ func (Prop) Gen(seed int64, tier string) *harness.Case {
 			tot += n
 		}
 		w.BadAt = 1 + r.Intn(tot)
+	}
+	if w.ConsForm != 4 && !w.Nils && !w.switchConsumer() && w.HostDrain != 1 && r.Intn(8) == 0 {
+		w.ConsForm = 5
+		w.BadAt = r.Intn(2) // which of the two inner-loop shapes
 	}
 	wb, _ := json.Marshal(w)
 	density := []int{0, 5, 20, 50, 80}[r.Intn(5)]
@@ -578,7 +584,17 @@ func Render(w *Work) string {
 		}
 		fmt.Fprintf(&b, "res = make(chan %s, 2)\nwd = make(chan int64)\n", w.Elem)
 		b.WriteString("func handle(x) {\nres <- x\nwd <- 1\n}\n")
-		fmt.Fprintf(&b, "go func() {\nfor dv in %s { go handle(dv) }\nexited(\"%s\", cl%d)\nfor k = 0; k < %d; k++ { <-wd }\nclres = true\nclose(res)\n}()\n", last, last, stages-1, tot)
+		start := "go handle(dv)"
+		switch w.DispForm % 4 {
+		case 1:
+			// the literal sits in a block that is entered once per item and captures a variable of THAT block
+			start = "\nif true {\nitb = dv\ngo func() {\nres <- itb\nwd <- 1\n}()\n}\n"
+		case 2:
+			start = "\nfor qb = 0; qb < 1; qb++ {\nitb = dv\ngo func() {\nres <- itb\nwd <- 1\n}()\n}\n"
+		case 3:
+			start = "\nif true {\nitb = dv\nemb = func() { go func(x) {\nres <- x\nwd <- 1\n}(itb) }\nemb()\n}\n"
+		}
+		fmt.Fprintf(&b, "go func() {\nfor dv in %s { "+start+" }\nexited(\"%s\", cl%d)\nfor k = 0; k < %d; k++ { <-wd }\nclres = true\nclose(res)\n}()\n", last, last, stages-1, tot)
 		last = "res"
 	}
 	if w.LateBind {
@@ -639,6 +655,15 @@ func Render(w *Work) string {
 		}
 		fmt.Fprintf(&b, "n1 = 0\nn2 = 0\nn3 = 0\nfor kk = 0; kk < %d; kk++ {\nswitch <-%s {\ncase %s:\nn1++\ncase %s:\nn2++\ndefault:\nn3++\n}\n}\nprobe(\"classes\", [n1, n2, n3])\nprobe(\"after-count\", <-%s)\n",
 			tot, last, strings.Join(c1, ", "), strings.Join(c2, ", "), last)
+	} else if w.ConsForm == 5 && !w.Nils {
+		// a for-in over a channel inside a for-in over a channel, in the same invocation: every item takes a detour
+		// through a channel of its own (closed after it, or left by break with a second item still inside)
+		fmt.Fprintf(&b, "for vm in %s {\nic = make(chan %s, 2)\nic <- vm\n", last, w.Elem)
+		if w.BadAt%2 == 0 {
+			b.WriteString("close(ic)\nfor iv in ic {\nemit(iv)\nout += iv\n}\n}\n")
+		} else {
+			b.WriteString("ic <- vm\nfor iv in ic {\nemit(iv)\nout += iv\nbreak\n}\n}\n")
+		}
 	} else if w.ConsForm == 4 && !w.Nils {
 		// a fault inside a stage: the callee of a direct call fails in Go (a channel of an impossible size), the
 		// failure is caught, and the argument expression `<-ch` has been evaluated exactly once all the same
